@@ -381,6 +381,9 @@ class MultiValue(Object):
         return None
 
 
+OBJECT_ATTRS = vars(object)
+
+
 class ClassObject(Object, Callable):
     def __init__(self, ctx, scope):
         # type: (EvalCtx, ClassScope) -> None
@@ -410,7 +413,12 @@ class ClassObject(Object, Callable):
         try:
             for b in reversed(self.bases):
                 # a base bound on several paths evaluates to a composite without a table of its own
-                attrs.update(getattr(b, '_attrs', {}))
+                for k, v in iteritems(getattr(b, '_attrs', {})):
+                    # `object` ends every MRO: what a base merely inherits from it
+                    # must not hide a definition made by a base further right
+                    if k in attrs and type(v) is RuntimeName and v.value is OBJECT_ATTRS.get(k, attrs):
+                        continue
+                    attrs[k] = v
         finally:
             self._collecting = False
 
